@@ -1,4 +1,5 @@
 import LC.Props.C05
+import LC.Props.C05Quotes
 #print axioms LC.V2Tok.step_congr
 #print axioms LC.V2Tok.tokenize_congr
 #print axioms LC.V2Tok.skip_inert
@@ -13,3 +14,5 @@ import LC.Props.C05
 #print axioms LC.V2Tok.blank_sig
 #print axioms LC.V2Tok.decoration_not_starter
 #print axioms LC.V2Tok.goEnv_wf
+#print axioms LC.V2Tok.quotes_invariant
+#print axioms LC.V2Tok.quotes_invariant_go
